@@ -63,6 +63,7 @@ def run(ctx):
                 ctx.nontriv(inp)
             reqs.append(dict(p='C18', op='rot', rot=rot, H=H, W=W))
             impl.append((inp, [int(R.shape[0]), int(R.shape[1])], cells))
+    two_engines(ctx, rng, eng)        # first: the engine with the other configuration decodes before any other decode of this process
     ridge_oracle(ctx, rng, eng)
     detect_oracle(ctx, rng, eng)
     order_lines(ctx, rng, reqs, impl)
@@ -85,6 +86,38 @@ def run(ctx):
                 ctx.traces_validated += 1
     else:
         ctx.notes.append('driver unavailable: correspondence skipped, oracle only')
+
+
+def two_engines(ctx, rng, eng):
+    """Engines are configured per object: an engine with a wide vertical connection range decoding first must not change what the
+    default engine (range 5) makes of two ridges 9..14 map rows apart: two lines."""
+    import contextlib, io
+    other = make_engine()
+    other.vertical_line_connection_range = 15
+    for it in range(6 if ctx.quick() else 40):
+        Hm, Wm = 90, rng.randrange(80, 160)
+        ds = rng.choice([1, 2, 4])
+        gap = rng.randrange(9, 15)
+        y0 = rng.randrange(20, 40)
+        maps = np.zeros((Hm, Wm, 5), dtype=np.float32)
+        x0, x1 = rng.randrange(3, 20), rng.randrange(Wm - 25, Wm - 3)
+        for y, (up, down) in ((y0, (3.0, 2.0)), (y0 + gap, (4.0, 1.5))):
+            maps[y, x0:x1 + 1, 2] = 1.0
+            maps[y, x0:x1 + 1, 0] = up
+            maps[y, x0:x1 + 1, 1] = down
+        inp = dict(map_shape=[Hm, Wm], downsample=ds, ridge_rows=[y0, y0 + gap], first_decoded_by='an engine with vertical_line_connection_range=15')
+        ctx.evaluations += 1
+        try:
+            with contextlib.redirect_stdout(io.StringIO()):
+                other.parse(maps.copy(), ds)
+                b_list, h_list, _ = eng.parse(maps.copy(), ds)
+        except Exception as e:
+            ctx.violation('parse-raises:' + type(e).__name__, 'LayoutEngine.parse raised %r' % (e,), inp)
+            continue
+        if len(b_list) != 2:
+            ctx.violation('ridge-count:two-engines', 'two ridges %d map rows apart are not decoded as two lines by the default engine after another engine '
+                          '(wider vertical connection range) decoded a page' % gap, inp, len(b_list), 2)
+        ctx.count('two_engine_cases')
 
 
 def ridge_oracle(ctx, rng, eng):
